@@ -83,11 +83,13 @@ theorem C16_frame (fl : Flags) (fs : FS) (input : InputState) (sr : SpecResult) 
   split
   · exact h
   · split
-    · split
-      · exact h
-      · simp only
-        split <;> exact hg
     · exact h
+    · split
+      · split
+        · exact h
+        · simp only
+          split <;> exact hg
+      · exact h
 
 /-- rendering reported success only if every listed file now exists with its complete content -/
 theorem renderAll_ok (dir : String) (render : String → String) (files : List String) :
@@ -189,6 +191,9 @@ theorem C16_success (fl : Flags) (fs : FS) (input : InputState) (sr : SpecResult
   | none => simp [hfile] at h
   | some file =>
   simp only [hfile] at h ⊢
+  by_cases hx : 1 < fl.args.length
+  · simp [hx] at h
+  simp only [hx, if_false] at h ⊢
   cases input with
   | readable =>
     simp only at h ⊢
@@ -219,10 +224,12 @@ theorem C16_exit_zero_iff (fl : Flags) (fs : FS) (input : InputState) (sr : Spec
   · split
     · simp
     · split
-      · split
-        · simp
-        · split <;> simp
       · simp
+      · split
+        · split
+          · simp
+          · split <;> simp
+        · simp
 
 /-- **A name that is not a usable package identifier is rejected before anything is created.** -/
 theorem C16_bad_name (fl : Flags) (fs : FS) (input : InputState) (sr : SpecResult) (idValid : String → Bool)
@@ -239,15 +246,71 @@ theorem C16_bad_name (fl : Flags) (fs : FS) (input : InputState) (sr : SpecResul
   · split
     · simp
     · split
-      · split
-        · simp
-        · simp [hgen]
       · simp
+      · split
+        · split
+          · simp
+          · simp [hgen]
+        · simp
 
 /-- `-name` replaces the grammar's name, `-out` selects the parent directory. -/
 theorem C16_flags (fl : Flags) (sr : SpecResult) :
     (fl.name ≠ "" → chosenName fl sr = fl.name) ∧ (fl.name = "" → chosenName fl sr = sr.grammarName) := by
   constructor <;> intro h <;> simp [chosenName, h]
+
+/-- **Nothing on the command line is ignored**: when the tool announces success, what the flag set left over was exactly
+    one argument, the input file - no `-out` or `-name` written after the file (the flag set stops at the first argument
+    that is not a flag, so such flags never reach `Flags.out` / `Flags.name`), no second file. Together with `C16_flags`:
+    every `-out` and `-name` of a successful command line was honoured. -/
+theorem C16_no_ignored_arguments (fl : Flags) (fs : FS) (input : InputState) (sr : SpecResult) (idValid : String → Bool)
+    (render : String → String) (faults : List Fault)
+    (h : (run fl fs input sr idValid render faults).success = true) :
+    ∃ f, fl.args = [f] ∧ f.startsWith "-" = false := by
+  unfold run at h
+  cases hpe : fl.parseError with
+  | true => simp [hpe] at h
+  | false =>
+  cases hu : fl.usage with
+  | true => simp [hpe, hu] at h
+  | false =>
+  cases hh : fl.help with
+  | true => simp [hpe, hu, hh] at h
+  | false =>
+  cases hv : fl.version with
+  | true => simp [hpe, hu, hh, hv] at h
+  | false =>
+  simp only [hpe, hu, hh, hv, Bool.false_eq_true, if_false] at h
+  cases hfile : fl.file with
+  | none => simp [hfile] at h
+  | some file =>
+  simp only [hfile] at h
+  by_cases hx : 1 < fl.args.length
+  · simp [hx] at h
+  · unfold Flags.file at hfile
+    have hmem := List.mem_of_find?_eq_some hfile
+    have hp := List.find?_some hfile
+    match hargs : fl.args with
+    | [] => simp [hargs] at hmem
+    | [a] =>
+      simp only [hargs, List.mem_singleton] at hmem
+      subst hmem
+      exact ⟨file, rfl, by simpa using hp⟩
+    | a :: b :: rest => simp [hargs] at hx
+
+/-- flags after the input file, or a second file: an error, nothing created, whatever else holds -/
+theorem C16_extra_arguments_rejected (fl : Flags) (fs : FS) (input : InputState) (sr : SpecResult) (idValid : String → Bool)
+    (render : String → String) (faults : List Fault)
+    (hinfo : fl.usage = false ∧ fl.help = false ∧ fl.version = false) (hx : 1 < fl.args.length) :
+    (run fl fs input sr idValid render faults).fs = fs ∧ (run fl fs input sr idValid render faults).exit ≠ 0 ∧
+    (run fl fs input sr idValid render faults).success = false := by
+  obtain ⟨h1, h2, h3⟩ := hinfo
+  unfold run
+  simp only [h1, h2, h3, Bool.false_eq_true, if_false]
+  split
+  · simp
+  · split
+    · simp
+    · simp [hx]
 
 /-- **The tie to the source**: the calls that can change the file system in the tool's non-test code,
     re-extracted from /repo on every run, are exactly the two the model issues — `os.Mkdir` in `prepare`
@@ -259,10 +322,12 @@ theorem C16_only_modelled_calls : Gen.FsOps.calls =
 
 /-- Non-vacuity: a successful run into an existing directory that already holds another file. -/
 def demoFS : FS := [("/o", .dir), ("/o/keep.txt", .file "x")]
-def demoFlags : Flags := { out := "/o", name := "", file := some "g.ebnf" }
+def demoFlags : Flags := { out := "/o", name := "", args := ["g.ebnf"] }
 def demoSpec : SpecResult := ⟨true, "calc", true, true⟩
-example : (run demoFlags demoFS .readable demoSpec (fun _ => true) (fun f => "// " ++ f) []).success = true := by decide
-example : (run demoFlags demoFS .readable demoSpec (fun _ => true) (fun f => "// " ++ f) []).fs.get "/o/keep.txt" = some (.file "x") := by decide
-example : (run demoFlags demoFS .readable demoSpec (fun _ => true) (fun f => "// " ++ f) [.none, .none, .half]).exit = 1 := by decide
+example : (run demoFlags demoFS .readable demoSpec (fun _ => true) (fun f => "// " ++ f) []).success = true := by decide +kernel
+example : (run demoFlags demoFS .readable demoSpec (fun _ => true) (fun f => "// " ++ f) []).fs.get "/o/keep.txt" = some (.file "x") := by decide +kernel
+example : (run demoFlags demoFS .readable demoSpec (fun _ => true) (fun f => "// " ++ f) [.none, .none, .half]).exit = 1 := by decide +kernel
+/-- `emerge g.ebnf -out /elsewhere`: rejected, nothing written -/
+example : (run { demoFlags with args := ["g.ebnf", "-out", "/elsewhere"] } demoFS .readable demoSpec (fun _ => true) (fun f => "// " ++ f) []).exit = 1 := by decide +kernel
 
 end Emerge.Props.C16
